@@ -71,7 +71,16 @@ func (tc *templateChecker) checkTemplate(node ast.Node) {
 	case *ast.CallNode:
 		tc.checkCall(node)
 	case *ast.ForNode:
+		// The loop variable is in scope in the loop body only: not in the
+		// collection expression, not in the {ifempty} block, not after the loop.
+		tc.checkTemplate(node.List)
 		tc.forVars = append(tc.forVars, node.Var)
+		tc.checkTemplate(node.Body)
+		tc.forVars = tc.forVars[:len(tc.forVars)-1]
+		if node.IfEmpty != nil {
+			tc.checkTemplate(node.IfEmpty)
+		}
+		return
 	case *ast.DataRefNode:
 		tc.visitKey(node.Key)
 	case *ast.HeaderParamNode:
